@@ -129,6 +129,42 @@ func wrapClassRule(p *Prog, r *Report, rule string, o wrapOpts) int {
 		}
 	}
 	sort.Strings(fns)
+	// a tolerance granted to a function extends to its function literals and to helpers of its package that only
+	// it (or other functions with the same tolerance) calls: the design decision "a missing content file is fine
+	// while deleting" does not depend on which statement of the deletion sits in which function
+	tolerated := map[string][]string{}
+	for k, v := range o.Tolerated {
+		tolerated[k] = v
+	}
+	callers := map[string][]string{}
+	for caller, outs := range cg.Out {
+		for _, callee := range outs {
+			callers[callee] = append(callers[callee], caller)
+		}
+	}
+	for changed := true; changed; {
+		changed = false
+		for _, k := range fns {
+			if _, has := tolerated[k]; has || len(callers[k]) == 0 {
+				continue
+			}
+			var tol []string
+			all := true
+			for _, c := range callers[k] {
+				c = strings.SplitN(c, "$", 2)[0]
+				t, ok := tolerated[c]
+				if !ok || p.Funcs[c] == nil || p.Funcs[k] == nil || p.Funcs[c].Pkg != p.Funcs[k].Pkg {
+					all = false
+					break
+				}
+				tol = t
+			}
+			if all && tol != nil {
+				tolerated[k] = tol
+				changed = true
+			}
+		}
+	}
 	n := 0
 	var units []*FuncInfo
 	for _, k := range fns {
@@ -184,7 +220,7 @@ func wrapClassRule(p *Prog, r *Report, rule string, o wrapOpts) int {
 						continue
 					}
 				}
-				f.SiteConsumed(r, rule, cons, fi, bs, flowOpts{Class: true, Tolerated: o.Tolerated[k], Through: o.Through, Sinks: o.Sinks})
+				f.SiteConsumed(r, rule, cons, fi, bs, flowOpts{Class: true, Tolerated: tolerated[strings.SplitN(k, "$", 2)[0]], Through: o.Through, Sinks: o.Sinks})
 			}
 		}
 	}
